@@ -28,7 +28,14 @@ type c16Inl struct {
 	Q int    `yaml:"q"`
 }
 
+type c16Inl2 struct {
+	IName  string         `yaml:"name"`
+	ICount int            `yaml:"n"`
+	IRest  map[string]any `yaml:",inline"`
+}
+
 var c16Types = map[string]reflect.Type{
+	"struct:inl2": reflect.TypeOf(c16Inl2{}),
 	"string": reflect.TypeOf(""), "int": reflect.TypeOf(0), "bool": reflect.TypeOf(false), "float": reflect.TypeOf(0.0),
 	"any": reflect.TypeOf((*any)(nil)).Elem(), "slice_string": reflect.TypeOf([]string(nil)), "slice_any": reflect.TypeOf([]any(nil)),
 	"map_ss": reflect.TypeOf(map[string]string(nil)), "map_sa": reflect.TypeOf(map[string]any(nil)),
@@ -239,7 +246,7 @@ func c16Event(c obj) obj {
 	desc, _ := c["desc"].([]any)
 	doc, _ := c["doc"].([]any)
 	pre, _ := c["pre"].(bool)
-	ev := obj{"c": obj{"desc": desc, "doc": doc, "pre": pre}}
+	ev := obj{"c": obj{"desc": desc, "doc": doc, "pre": pre, "rot": c["rot"]}} // rot: the document key order is a function of the case
 	p, msg := guarded(func() {
 		T := c16StructType(desc)
 		// document key order is shuffled: which key goes where must not depend on it
@@ -273,7 +280,17 @@ func c16Event(c obj) obj {
 		// reference: yaml.v3's own decoder on the same document
 		text := asciiJSON(orderedJSON(jpairs))
 		dst2 := reflect.New(T)
-		yerr := yaml.Unmarshal(text, dst2.Interface())
+		var yerr error
+		func() {
+			// yaml.v3 itself refuses some struct types with a panic (an inline struct repeating an outer key):
+			// that is the reference's business, not a panic of the code under test
+			defer func() {
+				if r := recover(); r != nil {
+					yerr = fmt.Errorf("yaml.v3 panicked: %v", r)
+				}
+			}()
+			yerr = yaml.Unmarshal(text, dst2.Interface())
+		}()
 		ev["yerr"] = yerr != nil
 		if yerr != nil {
 			ev["yerrmsg"] = yerr.Error()
